@@ -20,6 +20,24 @@ import traceback
 from . import core, env
 
 
+def _replay_in_fresh_process(prop: str, fl, has_findings: bool) -> bool:
+    """Second chance for the determinism gate: the case replayed by `--replay` in a new interpreter (nothing of this process's
+    history: caches, module-level tables, objects awaiting collection)."""
+    import subprocess
+    import tempfile
+    with tempfile.NamedTemporaryFile('w', suffix='.json', dir='/dev/shm', delete=False) as tf:
+        json.dump({'case': fl.case, 'kind': fl.kind}, tf)
+    try:
+        out = subprocess.run([sys.executable, '-X', 'faulthandler', '-m', 'mcv.main', prop, '--replay', tf.name], capture_output=True, text=True,
+                             errors='replace', timeout=900)
+    except Exception:  # noqa: BLE001
+        return False
+    finally:
+        os.unlink(tf.name)
+    kinds = [ln.split('kind=')[1].split(' ')[0] for ln in out.stdout.splitlines() if ln.startswith('REPRODUCED ') and 'kind=' in ln]
+    return fl.kind in kinds or (bool(kinds) and not has_findings)
+
+
 def main() -> int:
     ap = argparse.ArgumentParser()
     ap.add_argument('prop')
@@ -87,7 +105,13 @@ def main() -> int:
         except BaseException:
             traceback.print_exc()
             again = None
-        if not again or not any(a.kind == fl.kind for a in again):
+        # (the same case may show a different symptom when it runs alone, e.g. the first call of a process behaves differently
+        # from later ones: any failure of the replayed case that no listed finding covers confirms the violation)
+        fresh = [a for a in (again or []) if not any(core.finding_matches(fd, a) for fd in findings)]
+        confirmed = bool(again) and (any(a.kind == fl.kind for a in again) or bool(fresh))
+        if not confirmed:
+            confirmed = _replay_in_fresh_process(prop, fl, bool(findings))
+        if not confirmed:
             print(f'NONDETERMINISM property={prop} kind={fl.kind}: the recorded case did not fail again on replay '
                   f'(case={core.jdump(fl.case)[:300]})', flush=True)
             unstable += 1
